@@ -74,7 +74,8 @@ CORE = ['wl_registry', 'wl_callback', 'wl_compositor', 'wl_shm', 'wl_shm_pool', 
 UNKNOWN_IFACES = ['my_unknown_iface', 'zz_custom_v9', 'new', 'x', 'ACME_panel', 'Foo']      # (wayland-scanner accepts any C identifier)
 STRS = ['', 'a', 'wl_seat', 'wl_shm', 'hello world', 'a, b', 'x) y', '(p', '[q]', 'wl_surface@3', 'nil', '12', 'new id wl_a@4', 'ünï', "it's", 'fd 3',
         'array', ' lead', 'trail ', 'org.gnome.gedit', 'foo.bar.Baz', 'title: x', '}', '{', '1.5', '[1.0] a@1.b(',
-        '[5.000]  -> wl_surface@9.commit()', '[   7.250]  -> wl_x#3.y(1)', '2 discarded drafts', 'x discarded y', '50% done', '%s of %d', '100%', '{0} {name}']      # a whole sent-looking message with its own time inside a string
+        '[5.000]  -> wl_surface@9.commit()', '[   7.250]  -> wl_x#3.y(1)', '2 discarded drafts', 'x discarded y', '50% done', '%s of %d', '100%', '{0} {name}',
+        'Q3  report', 'Q3 report', 'a   b', 'My  App']      # runs of blanks (a command line must reach the matcher blank for blank)      # a whole sent-looking message with its own time inside a string
 LONG_TITLES = ['Quarterly report (final, really final) - spreadsheet.ods - Some Office Suite 7.4', 'x' * 64, 'https://example.org/a/very/long/path/to/a/page?with=query&and=more#fragment - Browser',
                'org.example.AnApplicationWithAVeryLongReverseDomainIdentifier.Window']
 FREE_NAMES = ['ping', 'set_thing', 'done', 'new', 'destroyed', 'configure', 'commit', 'Frob', 'setX']
